@@ -151,7 +151,8 @@ theorem storage_tie (backend : Int) :
     Gen.newChainStorageBody backend true false =
       (if backend = Gen.storageBackendTrillian then (0, false) else if backend = Gen.storageBackendCtfe then (1, false) else (0, true)) ∧
     Gen.newChainStorageBody backend false true = Gen.newChainStorageBody backend true false := by
-  unfold Gen.newChainStorageBody
+  simp only [Gen.newChainStorageBody_eq_spec]
+  unfold Spec.newChainStorageBody
   have h0 : Gen.storageBackendTrillian = 0 := rfl
   have h1 : Gen.storageBackendCtfe = 1 := rfl
   rw [h0, h1]
@@ -171,7 +172,9 @@ theorem setUp_tie (c : LogConfig) (o : SetupOracle) :
     setUpBody c o = (match setUp c o with
       | some inst => ((if inst.external then 2 else 1), false)
       | none => (0, true)) := by
-  unfold setUpBody Gen.setUpLogInfoBody setUp Gen.setupNeedsRoots
+  unfold setUpBody
+  rw [Gen.setUpLogInfoBody_eq_spec]
+  unfold Spec.setUpLogInfoBody setUp Gen.setupNeedsRoots
   have hne : Gen.storageBackendTrillian ≠ Gen.storageBackendCtfe := by decide
   by_cases ht : c.storage = Gen.storageBackendTrillian
   · have hc : c.storage ≠ Gen.storageBackendCtfe := fun h => hne (ht ▸ h)
